@@ -10,6 +10,7 @@ import (
 	"hash/fnv"
 	"math/rand/v2"
 	"os"
+	"runtime"
 	"sort"
 	"strconv"
 	"sync/atomic"
@@ -190,6 +191,9 @@ func watchdog(limit time.Duration, out string) {
 				continue
 			}
 			if cur >= 0 && time.Since(since) > limit {
+				buf := make([]byte, 1<<20)
+				buf = buf[:runtime.Stack(buf, true)]
+				os.WriteFile(out+".stuck.stacks", buf, 0o644)
 				os.WriteFile(out+".stuck", []byte(strconv.FormatInt(cur, 10)), 0o644)
 				os.Exit(3)
 			}
